@@ -16,17 +16,17 @@ PROPS = {
         "assumptions": ["the word-level model coq/Model/Tracker.v mirrors number_tracker.rs (rotate_right, leading_ones, trailing_ones, the loops over words): tied to the code by the operation histories of mode c14t"],
     },
 
-    "C01": {"theorems": ["C01_eval_is_reference", "C01_token_entry_point", "C01_exact_when_flags_are_sound", "C01_free_terms", "C01_any_flat_expression_is_precedence"], "axioms": [],
+    "C01": {"theorems": ["C01_eval_is_reference", "C01_token_entry_point", "C01_text_entry_point", "C01_exact_when_flags_are_sound", "C01_free_terms", "C01_any_flat_expression_is_precedence"], "axioms": [],
             "modes": [{"name": "c01", "quick_n": 1500, "thorough_n": 12000, "shard": 120}]},
     "C02": {"theorems": ["C02_folding_is_invisible", "C02_refolding_is_invisible", "C02_parse_vs_parse_wo_compile", "C02_folded_parse_is_reference", "C02_deep_folding_is_invisible", "C02_deep_parse_is_reference"], "modes": [{"name": "c02", "quick_n": 500, "thorough_n": 4000, "shard": 120}]},
-    "C03": {"theorems": ["C03_deep_parse_is_reference", "C03_deep_token_entry_point", "C03_flat_and_deep_agree", "C03_deep_eval_is_denotation", "C03_flat_to_deep", "C03_deep_to_flat", "C03_any_number_of_round_trips", "C03_every_parsed_flat_expression_converts", "C03_listings_sorted_duplicate_free", "C03_listings_are_the_operators_of_the_expression", "C03_deep_to_flat_keeps_the_listings", "C03_unfolded_parse_lists_the_operators_of_the_text", "C03_folding_only_removes_names_partial"], "modes": [{"name": "c03", "quick_n": 500, "thorough_n": 4000, "shard": 150}]},
+    "C03": {"theorems": ["C03_deep_parse_is_reference", "C03_deep_token_entry_point", "C03_deep_text_entry_point", "C03_flat_and_deep_agree", "C03_deep_eval_is_denotation", "C03_flat_to_deep", "C03_deep_to_flat", "C03_any_number_of_round_trips", "C03_every_parsed_flat_expression_converts", "C03_listings_sorted_duplicate_free", "C03_listings_are_the_operators_of_the_expression", "C03_deep_to_flat_keeps_the_listings", "C03_unfolded_parse_lists_the_operators_of_the_text", "C03_folding_only_removes_names_partial"], "modes": [{"name": "c03", "quick_n": 500, "thorough_n": 4000, "shard": 150}]},
     "C04": {"theorems": ["C04_vars_sorted_distinct_complete", "C04_binding_is_position", "C04_every_variable_has_an_index", "C04_arity_flat", "C04_arity_flat_relaxed", "C04_arity_deep", "C04_relaxed_ignores_surplus", "C04_binary_application_lists_the_sorted_union", "C04_substitution_lists_the_sorted_names"], "modes": [{"name": "c04", "quick_n": 250, "thorough_n": 2000, "shard": 25}]},
     "C07": {"theorems": ["C07_unbalanced_rejected", "C07_empty_rejected", "C07_trailing_operator_rejected", "C07_bad_pair_rejected", "C07_operand_count"], "modes": [{"name": "c07", "quick_n": 250, "thorough_n": 2500, "shard": 250}]},
     "C08": {"theorems": ["C08_tokenizer_is_lexer_then_rewrite", "C08_call_form_is_infix_at_any_nesting", "C08_same_tokens_as_infix_text"], "modes": [{"name": "c08", "quick_n": 800, "thorough_n": 6000, "shard": 120}]},
     "C10": {"theorems": ["C10_deep_binary_application_is_a_homomorphism", "C10_deep_unary_application_is_a_homomorphism", "C10_flat_binary_application_is_a_homomorphism", "C10_flat_unary_application_is_a_homomorphism", "C10_unknown_binary_name_is_error_partial", "C10_unknown_unary_name_is_error_partial", "C10_not_a_unary_operator_is_error_partial", "C10_shortcuts_are_sound_over_the_reals", "C10_is_num_is_sound_on_normal_forms"], "axioms": REAL_AXIOMS, "modes": [{"name": "c10", "quick_n": 400, "thorough_n": 3000, "shard": 40}, {"name": "c10s", "quick_n": 400, "thorough_n": 3000, "shard": 40}]},
     "C11": {"theorems": ["C11_substitution_is_simultaneous", "C11_replacement_evaluated_on_its_own_variables", "C11_named_denotation", "C11_parsed_expressions_qualify", "C11_flat_substitution"], "modes": [{"name": "c11", "quick_n": 400, "thorough_n": 3000, "shard": 40}]},
     "C12": {"theorems": ["C12_flat_unparse_is_source_text_partial", "C12_deep_unparse_is_the_text_of_its_tokens", "C12_printed_tokens_parse_back", "C12_printed_tokens_parse_back_to_the_same_expression", "C12_parsed_expressions_record_unary_operators", "C12_flat_from_deep_prints_the_deep_text"], "modes": [{"name": "c12", "quick_n": 400, "thorough_n": 3000, "shard": 60}, {"name": "c12d", "quick_n": 150, "thorough_n": 1500, "shard": 20}]},
-    "C13": {"theorems": ["C13_extended_name_is_variable", "C13_sign_unary_iff", "C13_numeric_literal", "C13_brace_is_one_var", "C13_longest_operator_name_wins"], "modes": [{"name": "c13", "quick_n": 3, "thorough_n": 12, "shard": 120}]},
+    "C13": {"theorems": ["C13_extended_name_is_variable", "C13_sign_unary_iff", "C13_numeric_literal", "C13_brace_is_one_var", "C13_longest_operator_name_wins", "C13_canonical_text_tokenizes", "C13_operator_found_by_its_name"], "modes": [{"name": "c13", "quick_n": 3, "thorough_n": 12, "shard": 120}]},
     "C15": {"theorems": ["C15_consuming_eq_cloning", "C15_arity"], "modes": [{"name": "c15", "quick_n": 150, "thorough_n": 1500, "shard": 60}]},
     "C05": {"theorems": ["C05_partial_is_the_derivative", "C05_partial_evaluates_to_the_derivative", "C05_parsed_expressions_qualify", "C05_consistent_expressions_qualify", "C05_derivatives_qualify", "C05_flat_partial_is_the_derivative", "C05_rule_names_match_code_partial", "C05_no_rule_for_nondifferentiable_partial", "C05_missing_binary_rule_is_error_partial", "C05_unary_rules_are_derivatives_partial", "C05_binary_rules_are_derivatives_partial"], "axioms": REAL_AXIOMS, "modes": [{"name": "c05", "quick_n": 400, "thorough_n": 3000, "shard": 30}]},
     "C09": {"theorems": ["C09_index_checked_first_partial", "C09_order_zero_partial", "C09_derivative_keeps_the_variable_list", "C09_same_values_evaluate_both", "C09_iterated_is_the_sequence_of_single_steps"], "axioms": REAL_AXIOMS, "modes": [{"name": "c09", "quick_n": 200, "thorough_n": 1500, "shard": 20}]},
